@@ -1,6 +1,7 @@
 package main
 
 import (
+	"encoding/hex"
 	"bytes"
 	"fmt"
 	"os"
@@ -24,7 +25,7 @@ func init() {
 // ---- C11: stored documents read back identical ----
 
 func streamC11(c *Ctx) {
-	c.Rule = "documents over the full value grammar (int64/uint64 extremes, ±0/±Inf/subnormal floats, empty strings/maps/slices, non-UTF-8 strings, times 1678-2262 with offsets UTC/+01:00/-07:30/+05:45:30/-04:56:02/-01:00:30/-00:00:30 (and a systematic table of 25 offsets x 4 instants through Encode/Decode) and nanoseconds at every nesting position, depth<=3 quick / 5 thorough) written by Insert/Save/Update and read back by FindById/FindAll before and after reopen (bbolt, badger-disk) and through document.Encode/Decode directly; compared with Go type tags against the written value and the Lean model; " +
+	c.Rule = "documents over the full value grammar (int64/uint64 extremes, ±0/±Inf/subnormal floats, empty strings/maps/slices, non-UTF-8 strings, times 1678-2262 with offsets UTC/+01:00/-07:30/+05:45:30/-04:56:02/-01:00:30/-00:00:30 (and a systematic table of 25 offsets x 4 instants through Encode/Decode) and nanoseconds at every nesting position, depth<=3 quick / 5 thorough) written by Insert/Save/Update and read back by FindById/FindAll before and after reopen (bbolt, badger-disk) and through document.Encode/Decode directly, at BYTE level against the Lean msgpack model in both directions (model decodes the implementation's bytes, implementation decodes the model's bytes, identical bytes when every map has one entry; header thresholds 31/32, 255/256, 65535/65536, 15/16); compared with Go type tags against the written value and the Lean model; " +
 		"non-trivial = distinct documents containing a time or an integer extreme inside an array or object"
 	dr := StartDriver(c.DriverBin)
 	defer dr.Close()
@@ -52,6 +53,50 @@ func streamC11(c *Ctx) {
 				return
 			}
 			c.Count("zone-offset-cell")
+			// byte level, on a document with one entry per map (the bytes are then determined): model = implementation
+			m1 := map[string]interface{}{"t": []interface{}{t, map[string]interface{}{"z": t}}}
+			if enc1, err := d.Encode(d.NewDocumentOf(m1)); err != nil || !codecBytes(c, dr, m1, enc1) {
+				return
+			}
+		}
+	}
+	{
+		g := NewGen(c.Rng, Domain{})
+		for i := 0; i < c.N(300, 3000); i++ {
+			m1 := map[string]interface{}{[]string{"v", "", "a long key of more than thirty-one bytes .."}[g.pick(3)]: g.Value(2)}
+			if enc1, err := d.Encode(d.NewDocumentOf(m1)); err != nil || !codecBytes(c, dr, m1, enc1) {
+				return
+			}
+		}
+		// length thresholds of the string / array / map headers (31|32, 255|256, 65535|65536; 15|16, 65535|65536)
+		for _, n := range []int{0, 1, 31, 32, 255, 256, 65535, 65536, 70000} {
+			m1 := map[string]interface{}{"s": strings.Repeat("x", n)}
+			if enc1, err := d.Encode(d.NewDocumentOf(m1)); err != nil || !codecBytes(c, dr, m1, enc1) {
+				return
+			}
+		}
+		alens := []int{0, 1, 15, 16, 17}
+		if !c.Quick() {
+			alens = append(alens, 65535, 65536)
+		}
+		for _, n := range alens {
+			arr := make([]interface{}, n)
+			for i := range arr {
+				arr[i] = int64(i)
+			}
+			m1 := map[string]interface{}{"a": arr}
+			if enc1, err := d.Encode(d.NewDocumentOf(m1)); err != nil || !codecBytes(c, dr, m1, enc1) {
+				return
+			}
+			if n <= 17 || c.Tier == "thorough" {
+				mm := map[string]interface{}{}
+				for i := 0; i < n; i++ {
+					mm[fmt.Sprintf("k%05d", i)] = int64(i)
+				}
+				if enc1, err := d.Encode(d.NewDocumentOf(mm)); err != nil || !codecBytes(c, dr, mm, enc1) {
+					return
+				}
+			}
 		}
 	}
 	if _, err := d.Encode(d.NewDocumentOf(map[string]interface{}{"_id": fixedId(1), "t": mkTime(0, -60)})); err == nil {
@@ -85,6 +130,10 @@ func streamC11(c *Ctx) {
 					dec, derr := d.Decode(enc)
 					if derr != nil || canonDoc(dec.AsMap()) != canonDoc(m) {
 						c.Violation(&Replay{Stream: "codec", Case: []interface{}{J{"k": "codec", "doc": encDoc(m)}}, Expected: []string{canonDoc(m)}, Actual: []string{fmt.Sprint(derr), canonDoc(dec.AsMap())}, Note: "document.Decode(document.Encode(d)) differs from d"})
+						im.Destroy()
+						return
+					}
+					if !codecBytes(c, dr, m, enc) {
 						im.Destroy()
 						return
 					}
@@ -763,4 +812,59 @@ func streamC20(c *Ctx) {
 			return
 		}
 	}
+}
+
+// codecBytes: the byte-level model of the codec (Model/Msgpack.lean) against the real functions, both directions:
+//   * the bytes document.Encode produced, decoded by the MODEL's decoder, give the document (any entry order);
+//   * the bytes the MODEL's encoder produces, decoded by document.Decode, give the document;
+//   * the two byte strings have the same length, and are identical when no map has more than one entry (Go writes
+//     the entries of a map in random order, the model in key order).
+func codecBytes(c *Ctx, dr *Driver, m map[string]interface{}, enc []byte) bool {
+	want := canonDoc(m)
+	line := J{"k": "mpdec", "bytes": hex.EncodeToString(enc)}
+	if got := dr.Ask(line); got != "ok "+want {
+		c.Unexplained(&Replay{Stream: "codec-bytes", Case: []interface{}{J{"k": "codec", "doc": encDoc(m)}, line}, Expected: []string{"ok " + want}, Actual: []string{got}}, "correspondence K-C11/model-decodes-impl-bytes")
+		return false
+	}
+	mb := dr.Ask(J{"k": "mpenc", "doc": encDoc(m)})
+	raw, herr := hex.DecodeString(mb)
+	if herr != nil {
+		c.Unexplained(&Replay{Stream: "codec-bytes", Case: []interface{}{J{"k": "mpenc", "doc": encDoc(m)}}, Actual: []string{mb}}, "correspondence K-C11/model-encoder")
+		return false
+	}
+	dec, derr := d.Decode(raw)
+	if derr != nil || canonDoc(dec.AsMap()) != want {
+		c.Unexplained(&Replay{Stream: "codec-bytes", Case: []interface{}{J{"k": "mpenc", "doc": encDoc(m)}}, Expected: []string{want}, Actual: []string{fmt.Sprint(derr), canonDoc(dec.AsMap())}}, "correspondence K-C11/impl-decodes-model-bytes")
+		return false
+	}
+	if len(raw) != len(enc) || (singleEntryMaps(m) && mb != hex.EncodeToString(enc)) {
+		c.Unexplained(&Replay{Stream: "codec-bytes", Case: []interface{}{J{"k": "mpenc", "doc": encDoc(m)}}, Expected: []string{mb}, Actual: []string{hex.EncodeToString(enc)}}, "correspondence K-C11/bytes")
+		return false
+	}
+	c.Count("codec-bytes")
+	if singleEntryMaps(m) {
+		c.Count("codec-bytes:identical")
+	}
+	return true
+}
+
+func singleEntryMaps(v interface{}) bool {
+	switch x := v.(type) {
+	case map[string]interface{}:
+		if len(x) > 1 {
+			return false
+		}
+		for _, e := range x {
+			if !singleEntryMaps(e) {
+				return false
+			}
+		}
+	case []interface{}:
+		for _, e := range x {
+			if !singleEntryMaps(e) {
+				return false
+			}
+		}
+	}
+	return true
 }
